@@ -701,9 +701,11 @@ def structuralKeys : List String := ["_add", "_move", "_generate", "_divide", "_
 
 /-- the updater of a leaf applied to an update (`accumulate` on integers, `set`, `null`) -/
 def leafUpdate (a : Attrs) (upd : Val) : Except Err Val :=
-  match upd with
-  | .dict _ => .error .exception
-  | _ =>
+  let special : Bool := match upd with
+    | .dict kvs => KV.has "_updater" kvs || KV.has "_reduce" kvs
+    | _ => false
+  if special then .error .exception
+  else
     match a.updater with
     | .str u =>
       if u = "_default" || u = "accumulate" then
